@@ -1,4 +1,4 @@
-import OntVerif.Proofs.KV
+import OntVerif.Proofs.KVLive
 /-!
 # C04 — Layered contract storage behaves like one ordered key/value map
 
@@ -9,7 +9,7 @@ The one ordered map a layer stands for is its read function: `Cache.read c` (thr
 `Cache.read c (pfx :: k)` by definition. Tied to the real `CacheDB`/`OverlayDB`/LevelDB by `harness/cmd/c04`.
 -/
 namespace OntVerif.Props.C04
-open OntVerif.Util OntVerif.Model.KV OntVerif.Proofs.KV
+open OntVerif.Util OntVerif.Model.KV OntVerif.Proofs.KV OntVerif.Model.KVLive OntVerif.Proofs.KVLive
 
 /-- strict sortedness of the three layers is an invariant of every operation … -/
 theorem C04_inv_step (c : Cache) (inv : Inv c) (op : COp) : Inv (c.step op) := step_inv inv op
@@ -151,6 +151,81 @@ theorem C04_iter_get (c : Cache) (inv : Inv c) (p k : Bytes) :
   have := (h3 k v).mp (List.mem_of_mem_take hv)
   exact ⟨this.1, by rw [this.2.1]; exact this.2.2⟩
 
+/-! ### Iterators that stay open while other operations run (`Model/KVLive.lean`)
+
+`openCacheIter c0 p` is the OBJECT `CacheDB.NewIterator(p)` returns in state `c0`: two live skip-list cursors (nothing is read
+from the memdbs at creation; `First()` seeks, `Next()` follows the current forward pointer of the MemDB it points to) and a
+LevelDB iterator over the snapshot of the store taken at creation. `drainCacheIter c1 it n` runs `First()` and up to `n-1`
+`Next()` on it in a later state `c1`. -/
+
+/-- **`C04_iter_deferred`.** Whatever happened between `NewIterator` (state `c0`) and `First()` (ANY later state `c1` with
+sorted layers — puts, deletes, commits, resets, block commits, other iterators), the iterator yields exactly the keys with the
+prefix that are live in "the memory layers of `c1` over the store as it was in `c0`", ascending, with the value `Get` returns
+there; it equals what a fresh iterator created in that state yields (`iterate`). -/
+theorem C04_iter_deferred (c0 c1 : Cache) (inv1 : Inv c1) (hs0 : Sorted c0.backend.store) (p : Bytes) :
+    (∀ n, drainCacheIter c1 (openCacheIter c0 p) n = (seenBy c1 c0.backend.store).iterate p n) ∧
+    ∃ L : List KV, (∀ n, drainCacheIter c1 (openCacheIter c0 p) n = L.take n) ∧
+      L.Pairwise (fun a b => kcmp a.1 b.1 = .lt) ∧
+      ∀ k v, (k, v) ∈ L ↔ (p <+: k ∧ (seenBy c1 c0.backend.store).get stStorage k = v ∧ v ≠ []) := by
+  have invS : Inv (seenBy c1 c0.backend.store) := ⟨inv1.tx, inv1.blk, hs0⟩
+  have h (n : Nat) := cache_deferred_spec c1 c0.backend.store inv1 hs0 p n
+  rw [← openCacheIter_store c0 p] at h
+  refine ⟨fun n => by rw [h n, cache_iterate_spec _ invS p n], _, h, (cacheList_stripped_spec _ invS p).1,
+    (cacheList_stripped_spec _ invS p).2⟩
+
+/-- with only reads (or any operations that leave the persistent store as it was) in between, that is the `C04_iter` list of
+the state in which `First()` is called -/
+theorem C04_iter_deferred_same_store (c0 c1 : Cache) (inv1 : Inv c1) (hst : c1.backend.store = c0.backend.store) (p : Bytes) (n : Nat) :
+    drainCacheIter c1 (openCacheIter c0 p) n = c1.iterate p n := by
+  have hs0 : Sorted c0.backend.store := by rw [← hst]; exact inv1.per
+  rw [(C04_iter_deferred c0 c1 inv1 hs0 p).1 n]
+  have : seenBy c1 c0.backend.store = c1 := by
+    unfold seenBy; rw [← hst]
+  rw [this]
+
+/-- the same for an `OverlayDB` iterator -/
+theorem C04_iter_deferred_overlay (o0 o1 : Overlay) (hm : Sorted o1.mem) (hs0 : Sorted o0.store) (p : Bytes) (n : Nat) :
+    drainOverlayIter o1 (openOverlayIter o0 p) n = ({ o1 with store := o0.store } : Overlay).iterate p n := by
+  have h := overlay_deferred_spec o1 o0.store hm hs0 p n
+  rw [← openOverlayIter_store o0 p] at h
+  rw [h]
+  exact (overlay_iterate_spec ({ o1 with store := o0.store } : Overlay) hs0 p n).symm
+
+/-! ### `First()` called again on a used `JoinIter` -/
+
+/-- rewinding statement for the overlay iterator: after `First()` and any number `k` of `Next()` calls, `fst` (a `First()`)
+followed by a walk yields the live keys again -/
+def C04_refirst_statement (fst : OverlayIter → Bool × OverlayIter) : Prop :=
+  ∀ (o : Overlay) (p : Bytes) (k n : Nat), Sorted o.mem → Sorted o.store →
+    drain overlayIterOps false n (fst (nexts k (fst (o.newIter p)).2)) = o.iterate p n
+
+/-- the tree as shipped violates it: `JoinIter.first()` keeps `nextMemEnd`/`nextBackEnd` of the earlier pass
+(recorded finding `refirst-iter-*`; no caller in the tree rewinds a `JoinIter`) -/
+theorem C04_refirst_asShipped_counterexample : ¬ C04_refirst_statement overlayIterOps.first := by
+  intro h
+  have := h ⟨[([1], [1]), ([2], [2])], []⟩ [] 2 10 (by decide) (by decide)
+  revert this; decide
+
+/-- … it holds as shipped as long as no side has been exhausted yet (both end flags still clear) -/
+theorem C04_refirst_partial (o : Overlay) (p : Bytes) (k n : Nat)
+    (h1 : (nexts k (overlayIterOps.first (o.newIter p)).2).memEnd = false)
+    (h2 : (nexts k (overlayIterOps.first (o.newIter p)).2).backEnd = false) :
+    drain overlayIterOps false n (overlayIterOps.first (nexts k (overlayIterOps.first (o.newIter p)).2)) = o.iterate p n := by
+  have a := nexts_alls k (overlayIterOps.first (o.newIter p)).2
+  have b := first_alls (o.newIter p)
+  exact first_of_flags_clear _ (o.newIter p) (a.1.trans b.1) (a.2.trans b.2) h1 h2 rfl rfl n
+
+/-- … and with the repaired `first()` (fixes/C04-joiniter-first-clears-flags.patch) it holds always -/
+theorem C04_refirst_sound : C04_refirst_statement (Join.firstSound leafOps leafOps) := by
+  intro o p k n _ _
+  have e0 : Join.firstSound leafOps leafOps (o.newIter p) = overlayIterOps.first (o.newIter p) := rfl
+  rw [e0]
+  have a := nexts_alls k (overlayIterOps.first (o.newIter p)).2
+  have b := first_alls (o.newIter p)
+  exact first_of_flags_clear
+    { nexts k (overlayIterOps.first (o.newIter p)).2 with memEnd := false, backEnd := false } (o.newIter p)
+    (a.1.trans b.1) (a.2.trans b.2) rfl rfl rfl rfl n
+
 /-! ### Non-vacuity -/
 def cEx : Cache := ⟨[([5, 1], []), ([5, 2], [7])], ⟨[([5, 1], [8]), ([5, 3], [])], [([5, 1], [9]), ([5, 3], [6]), ([6], [1])]⟩⟩
 example : Inv cEx := ⟨by decide, by decide, by decide⟩
@@ -161,5 +236,8 @@ over a live store entry, and a key outside the prefix -/
 example : cEx.iterate [] 100 = [([2], [7])] ∧ (cEx.step .reset).iterate [] 100 = [([1], [8])] ∧
     (cEx.step .breset).iterate [] 1 = [([2], [7])] ∧ (cEx.step .reset |>.step .breset).iterate [] 100 = [([1], [9]), ([3], [6])] := by
   decide
+
+/-- an iterator opened before a put and a commit, positioned afterwards: sees both; the store snapshot hides a later store write -/
+example : drainCacheIter ((cEx.step (.put [4] [4])).step .commit) (openCacheIter cEx []) 100 = [([2], [7]), ([4], [4])] := by decide
 
 end OntVerif.Props.C04
